@@ -757,6 +757,41 @@ pub fn big() -> Vec<DefSpec> {
     z.into_iter().enumerate().map(|(i, steps)| DefSpec { name: format!("big{}", i), steps, reuse_names: false }).collect()
 }
 
+/// Records that are large in one dimension, which the enumerated sub-families cannot afford:
+/// twelve fields in one variant / added in one step (two-digit positions and generic parameter
+/// numbers, a mandatory field at position 1 and may-be-uninitialised ones at 10 and 11); every
+/// mandatory / may-be-uninitialised pattern of three additions in one step; two groups of adjacent
+/// plain fields whose memory order differs from their declaration order.
+pub fn wide() -> Vec<DefSpec> {
+    let f = false;
+    let t = true;
+    let twelve: [(&str, bool); 12] =
+        [("Pod4", t), ("Own8", f), ("Pod2", t), ("Own3", f), ("Pod1", t), ("Pod8", t), ("OwnBox", f), ("Pod4", f), ("Pod2", f), ("Own1", f), ("Pod4", t), ("Pod1", t)];
+    let mut z: Vec<Vec<DStep>> = vec![
+        vec![step(&[], &twelve, 0), step(&[1, 10], &[("Pod4", t)], 0)],
+        vec![step(&[], &[("Pod1", t)], 0), step(&[], &twelve, 0), step(&[2, 4, 7], &[("Own3", f), ("Pod2", t), ("Own8", f)], 0)],
+        // two groups of adjacent plain data; the group lower in memory is the younger one
+        vec![step(&[], &[("OwnBox", f), ("OwnBox", f), ("Pod4", t), ("Pod4", t)], 0), step(&[0], &[("Pod4", t), ("Pod4", t)], 0)],
+        vec![step(&[], &[("Own24", f), ("Pod2", t), ("Pod2", t), ("Own8", f)], 1), step(&[0], &[("Pod8", t), ("Pod8", t), ("Pod1", t)], 0), step(&[2], &[], 0)],
+    ];
+    // every pattern of three additions in one step (u = may stay uninitialised, m = mandatory),
+    // the first of them re-using the bytes of a removed datum
+    for p in 0..8u8 {
+        let kinds: Vec<(&str, bool)> = (0..3)
+            .map(|i| match (p >> i & 1 == 1, i) {
+                (true, 0) => ("Pod4", t),
+                (true, 1) => ("Pod2", t),
+                (true, _) => ("Pod8", t),
+                (false, 0) => ("Own3", f),
+                (false, 1) => ("Own8", f),
+                (false, _) => ("Pod4", f),
+            })
+            .collect();
+        z.push(vec![step(&[], &[("Pod4", t), ("Own3", f)], 0), step(&[0], &kinds, 0)]);
+    }
+    z.into_iter().enumerate().map(|(i, steps)| DefSpec { name: format!("wide{}", i), steps, reuse_names: false }).collect()
+}
+
 /// The reduced family interpreted by Miri: every instrumented type, re-used bytes, a re-used
 /// name, zero-size data, odd sizes, an over-aligned type, a ghost, three strategies.
 pub fn miri_family() -> Vec<DefSpec> {
@@ -776,6 +811,7 @@ pub fn family(tier: &str) -> Vec<DefSpec> {
     let mut v = zoo();
     v.extend(lifetimes());
     v.extend(big());
+    v.extend(wide());
     // a 4-aligned plain type that may stay uninitialised, an 8-aligned droppable type (padding
     // gaps, hence zero-size data sharing an offset with a sized datum) and a droppable zero-size type
     let a3 = [(type_index("Pod4"), true), (type_index("OwnBox"), false), (type_index("OwnZ"), false)];
